@@ -81,6 +81,7 @@ namespace sim
 		std::size_t ret = cancel();
 		m_expiration_time = expiry_time;
 		m_expired = false;
+		m_armed_seq = m_io_service->sim().next_timer_seq();
 		m_io_service->add_timer(this);
 		return ret;
 	}
@@ -90,6 +91,7 @@ namespace sim
 		std::size_t ret = cancel();
 		m_expiration_time = chrono::high_resolution_clock::now() + expiry_time;
 		m_expired = false;
+		m_armed_seq = m_io_service->sim().next_timer_seq();
 		m_io_service->add_timer(this);
 		return ret;
 	}
